@@ -377,6 +377,13 @@ fn spline_strat<T: Scalar, D: Dimension + ndarray::RemoveAxis>(
     }
 }
 
+/// the given axis in reverse order, owned
+fn decoy_axis<T: Scalar>(x: &Stored<T>) -> ndarray::Array1<T> {
+    let mut v: Vec<T> = x.view().iter().cloned().collect();
+    v.reverse();
+    ndarray::Array1::from(v)
+}
+
 fn bilinear_strat(ext: bool) -> Bilinear {
     match mix_bits(0, 3) {
         1 => Bilinear::new().extrapolate(!ext).extrapolate(ext),
@@ -435,6 +442,11 @@ macro_rules! i1_dim {
                     }
                 }
             }
+            // an earlier `.x(..)` call with another axis (the given one reversed: invalid if the given one is valid and the other way
+            // round) that the final call replaces: only the axis the builder holds when `build()` runs may count
+            Some(x) if mix_bits(5, 3) == 0 => {
+                i1_built!($T, $D, Interp1D::builder(d).x(decoy_axis(x)).x(cow1(x)), $spec, $entry, $t)
+            }
             // the documented shorthand `Interp1D::builder` for explicit axes, `Interp1DBuilder::new` for the default axis
             Some(x) => i1_built!($T, $D, Interp1D::builder(d).x(cow1(x)), $spec, $entry, $t),
         }
@@ -475,6 +487,7 @@ fn i1_scalar<T: Scalar>(
     }
     Ok(match &x {
         None => go!(Interp1DBuilder::new(d)),
+        Some(x) if mix_bits(5, 3) == 0 => go!(Interp1DBuilder::new(d).x(decoy_axis(x)).x(cow1(x))),
         Some(x) => go!(Interp1DBuilder::new(d).x(cow1(x))),
     })
 }
